@@ -372,6 +372,15 @@ def r13_2(rep, M, rid):
             rep.violation(rid, base + " radii", f"`{norm(rad[0])}` is not derived from self._radii", M.where(fq, call))
         else:
             rep.ok(rid, base + " radii <- self._radii")
+            # when the radii travel through a keyword dict filled under a test, the test must let the *given* radii through
+            for st in [s2 for s2 in ast.walk(fn) if isinstance(s2, ast.Assign) and isinstance(s2.targets[0], ast.Subscript)
+                       and isinstance(s2.targets[0].slice, ast.Constant) and s2.targets[0].slice.value == "radii"]:
+                for t, pol in fl.cfg.branch_conditions(fl.node_of(st)):
+                    tt = getattr(t, "test", None)
+                    if isinstance(tt, ast.Compare) and len(tt.ops) == 1 and isinstance(tt.comparators[0], ast.Constant) and tt.comparators[0].value is None \
+                            and norm(tt.left) == "self._radii" and ((isinstance(tt.ops[0], ast.Is) and pol) or (isinstance(tt.ops[0], ast.IsNot) and not pol)):
+                        rep.violation(rid, base + " radii guard", f"`{norm(st)[:50]}` runs exactly when self._radii is None: clusters that carry clustering radii evaluate "
+                                      "their 2x supercell with the default covalent radii (and a cluster without radii fails on None[...])", M.where(fq, st))
             # ... and as a per-atom slice: the array holds one radius per atom of the parent system
             getter, _setter = property_of(M, CLUSTER, "indices")
             ok_idx = {"self.indices"} | {"self." + b for b in backing_fields(getter)}
